@@ -423,7 +423,14 @@ func reifyValue(
 		if err := reifyInto(opts.opts, newMap, sub); err != nil {
 			return reflect.Value{}, err
 		}
-		return newMap, nil
+		return pointerize(t, baseType, newMap), nil
+
+	case reflect.Array:
+		v, err := reifyArray(opts, reflect.New(baseType).Elem(), baseType, val)
+		if err != nil {
+			return reflect.Value{}, err
+		}
+		return pointerize(t, baseType, v), nil
 
 	case reflect.Slice:
 		v, err := reifySlice(opts, baseType, val)
